@@ -225,6 +225,36 @@ def check_builders(ctx):
             ok = ok and np.allclose(np.diff(ys, axis=0), pitch_y, rtol=1e-12, atol=0)
         if not ok:
             ctx.violate("probe_from_conf does not carry the configured values", cj, {"kind": "probe_from_conf"})
+        # probe location: reference element (name or index, 0 included), tilt, standoff — each optional
+        import arim.geometry as g
+        nel = numx * numy
+        loc_conf = {}
+        if rng.random() < 0.85:
+            loc_conf["ref_element"] = [ "first", "last", "mean", 0, nel - 1, -1, int(rng.integers(0, nel))][int(rng.integers(0, 7))]
+        if rng.random() < 0.7:
+            loc_conf["angle_deg"] = float(rng.choice([0.0, rng.uniform(-40, 40)]))
+        if rng.random() < 0.7:
+            loc_conf["standoff"] = float(rng.choice([0.0, -rng.uniform(1e-3, 40e-3)]))
+        conf2 = {**conf, "probe_location": loc_conf}
+        cj2 = {"op": "probe_from_conf", "conf": conf2}
+        ctx.case(("probe-loc", repr(conf2)), True)
+        ctx.count("probe_location:ref=" + str(type(loc_conf.get("ref_element", None)).__name__))
+        try:
+            p2 = native.probe_from_conf(conf2)
+            base = np.array(p.locations.coords)
+            want = base.copy()
+            if "ref_element" in loc_conf:
+                r = loc_conf["ref_element"]
+                ref = {"first": base[0], "last": base[-1], "mean": base.mean(axis=0)}[r] if isinstance(r, str) else base[r]
+                want = base - ref
+            if "angle_deg" in loc_conf:
+                want = want @ g.rotation_matrix_y(np.deg2rad(loc_conf["angle_deg"])).T
+            if "standoff" in loc_conf:
+                want = want + np.array([0.0, 0.0, loc_conf["standoff"]])
+            if not np.allclose(p2.locations.coords, want, rtol=0, atol=1e-12):
+                ctx.violate("probe_from_conf does not place the probe as configured (reference element at O, then tilt about Oy, then standoff)", cj2, {"kind": "probe_location"})
+        except Exception as e:
+            ctx.violate(f"probe_from_conf raises {type(e).__name__} on a valid probe_location", cj2, {"kind": "probe_location"})
         # material
         vl, vt, rho = float(rng.uniform(1000, 7000)), float(rng.uniform(500, 3500)), float(rng.uniform(500, 9000))
         mconf = {"longitudinal_vel": vl, "transverse_vel": vt, "density": rho, "state_of_matter": str(rng.choice(["solid", "liquid"])),
